@@ -277,7 +277,13 @@ func (p *poller) readWriteLoop() {
 							continue
 						default:
 							onConnected(c, nil)
-							c.resetRead()
+							// the dialer was registered with the writing event; drop it
+							// only if the callback did not leave a backlog to flush.
+							c.mux.Lock()
+							if len(c.writeList) == 0 {
+								c.resetRead()
+							}
+							c.mux.Unlock()
 						}
 						// A writing event without a reading event would leave
 						// the fd disarmed in oneshot mode.
